@@ -2,10 +2,12 @@ package props
 
 import (
 	"bytes"
+	"context"
 	"encoding/base64"
 	"errors"
 	"fmt"
 	"github.com/fullstorydev/grpchan"
+	"google.golang.org/grpc"
 	"io"
 	"math/rand"
 	"mime"
@@ -483,13 +485,56 @@ func checkC11(e *core.Env) {
 
 	// over a real connection: header metadata that the handler sets under names HTTP itself gives a meaning to
 	// (relayed from somewhere, or echoed from the request) does not deform the reply
+	// a service whose messages are of the older generated kind (plain structs with protobuf tags and the three
+	// v1 methods; many code bases still have them): JSON requests are handled like protobuf ones
+	legacySrv := httpgrpc.NewServer()
+	legacySrv.RegisterService(&grpc.ServiceDesc{ServiceName: "verif.Legacy", HandlerType: (*interface{})(nil),
+		Methods: []grpc.MethodDesc{{MethodName: "Echo", Handler: func(_ interface{}, ctx context.Context, dec func(interface{}) error, _ grpc.UnaryServerInterceptor) (interface{}, error) {
+			in := new(legacyMsg)
+			if err := dec(in); err != nil {
+				return nil, err
+			}
+			return &legacyMsg{Name: "re: " + in.Name}, nil
+		}}}}, struct{}{})
+	e.Cases("legacy-messages", e.N(12, 100), func(i int, r *rand.Rand) {
+		name := fmt.Sprintf("legacy-%d-%s", i, genIdent(r))
+		var codes [2]int
+		var replies [2]string
+		for j, ct := range []string{httpgrpc.UnaryRpcContentType_V1, httpgrpc.ApplicationJson} {
+			body := append([]byte{0x0a, byte(len(name))}, name...)
+			if j == 1 {
+				body = []byte(fmt.Sprintf("{\"name\":%q}", name))
+			}
+			hr := httptest.NewRequest("POST", "/verif.Legacy/Echo", bytes.NewReader(body))
+			hr.Header.Set("Content-Type", ct)
+			rec := httptest.NewRecorder()
+			if pan := guard(func() { legacySrv.ServeHTTP(rec, hr) }); pan != "" {
+				e.Violate("server/unary/legacy-messages/panic", fmt.Sprintf("content type %s: %s", ct, trunc(pan, 400)), map[string]any{"content_type": ct})
+				return
+			}
+			codes[j] = rec.Code
+			replies[j] = rec.Body.String()
+		}
+		e.Eval("legacy-messages", true)
+		w := map[string]any{"name": name, "http_proto": codes[0], "http_json": codes[1], "reply_proto": fmt.Sprintf("%q", replies[0]), "reply_json": replies[1]}
+		wantProto := string(append([]byte{0x0a, byte(len("re: " + name))}, "re: "+name...))
+		if codes[0] != 200 || replies[0] != wantProto {
+			e.Violate("server/unary/legacy-messages/protobuf", fmt.Sprintf("protobuf request to a service with older-style messages: HTTP %d, reply %q", codes[0], replies[0]), w)
+		}
+		if codes[1] != 200 || !strings.Contains(strings.ReplaceAll(replies[1], " ", ""), fmt.Sprintf("\"name\":%q", "re: "+name)[0:7]) || !strings.Contains(replies[1], name) {
+			e.Violate("server/unary/legacy-messages/json-differs", fmt.Sprintf("the JSON encoding of a request that the protobuf encoding gets answered with HTTP %d was answered with HTTP %d, reply %q", codes[0], codes[1], replies[1]), w)
+		}
+	})
+
 	rc := NewHTTPServer(&Service{}, carrierOpt{})
 	defer rc.Close()
 	e.Cases("reserved-metadata", e.N(24, 200), func(i int, r *rand.Rand) {
-		name := pick(r, "content-length", "Content-Length", "transfer-encoding", "connection", "content-type", "trailer")
+		// (also spelt the way http.Header spells them: a handler that relays an upstream reply's header as
+		// metadata.MD(upstream.Header) hands over such keys)
+		name := pick(r, "content-length", "Content-Length", "transfer-encoding", "Transfer-Encoding", "connection", "content-type", "Content-Type", "trailer")
 		val := pick(r, "5", "0", "chunked", "close", "text/plain", "999999")
 		nmsg := 1 + r.Intn(3)
-		sc := &Script{Kind: ServerStream, Handler: []Op{{Op: "recv"}, {Op: "sethdr", MD: metadata.MD{strings.ToLower(name): {val}}}}}
+		sc := &Script{Kind: ServerStream, Handler: []Op{{Op: "recv"}, {Op: "sethdr", MD: metadata.MD{name: {val}}}}}
 		for k := 0; k < nmsg; k++ {
 			sc.Handler = append(sc.Handler, Op{Op: "send", Msg: &tpb.Message{Payload: []byte(fmt.Sprintf("reserved-%d-%d", i, k))}})
 		}
@@ -621,3 +666,12 @@ func parseReply(b []byte) (data [][]byte, trailers int, tr *httpgrpc.HttpTrailer
 	}
 	return data, trailers, tr, len(b)
 }
+
+// legacyMsg is a message of the older generated kind.
+type legacyMsg struct {
+	Name string `protobuf:"bytes,1,opt,name=name,proto3" json:"name,omitempty"`
+}
+
+func (m *legacyMsg) Reset()         { *m = legacyMsg{} }
+func (m *legacyMsg) String() string { return "legacyMsg{" + m.Name + "}" }
+func (*legacyMsg) ProtoMessage()    {}
